@@ -158,6 +158,7 @@ type SQLStmt struct {
 	Cols         []string
 	Values       []SQLExpr
 	Select       *SQLSelect
+	PragmaValue  string
 	HasConflict  bool
 	ConflictCol  string
 	ConflictSets []SQLSet // nil => DO NOTHING
@@ -291,6 +292,18 @@ func (p *sqlParser) statement() *SQLStmt {
 		return p.delete()
 	case p.isKw("select"):
 		return &SQLStmt{Kind: "select", Select: p.selectStmt()}
+	case p.isKw("pragma"):
+		// PRAGMA name [= value | (value)]: kept as (name, value) for the schema lemma
+		p.next()
+		st := &SQLStmt{Kind: "pragma", Table: strings.ToLower(p.ident())}
+		if p.acceptOp("=") || p.acceptOp("(") {
+			if p.acceptOp("-") {
+				st.PragmaValue = "-"
+			}
+			st.PragmaValue += strings.ToUpper(p.next().text)
+			p.acceptOp(")")
+		}
+		return st
 	}
 	panic(fmt.Errorf("sql: unsupported statement starting with %q", p.peek().text))
 }
